@@ -1101,6 +1101,10 @@ func (s *Sim) run() {
 			s.stat("finished", 1)
 			return
 		}
+		if s.step%64 == 0 && kernel.PastHardStop() {
+			s.stat("run_cut_by_budget", 1)
+			return
+		}
 		s.asyncStep()
 		synctest.Wait()
 		s.collect()
